@@ -608,6 +608,7 @@ def run(ctx):
         "and every built individual joins the population (I1); decomposed parts reach the merge through element-preserving adapters only and refine maps part to part "
         "(D1); with a limit configured every path of get_termination to the composite criterion creates and adds the corresponding member, and every built "
         "configuration passes get_termination(self.max_generations, self.max_time, ..) (G1).")
+    ctx.explanation += ' Initial operators build a complete individual on every return path (I2, must-derive from InsertionContext::new); the decomposition merge is decided in fold and in loop form (D1).'
     ctx.not_decided = "validity of the returned solution itself (C01-C03 value-level), wall-clock timing."
     ctx.assumptions += ["Quota implementations outside the workspace are monotone", "closures are analysed at their construction site"]
     ctx.run("C07-L1", "termination and quota are checked before every generation; MaxGeneration/Composite semantics", l1_loop_guard, floor=7)
